@@ -225,7 +225,7 @@ void vrt_dump(void){
         while (lo < hi){ long mid = (lo + hi) / 2; if (addrs[mid] < v) lo = mid + 1; else hi = mid; }
         v = lo + 1;
       }
-      if (v > 2000000000L) v = 2000000000L; if (v < -2000000000L) v = -2000000000L;
+      if (v > 2147483647L) v = 2147483647L; if (v < -2147483647L) v = -2147483647L;    /* TLC integers are 32-bit */
       fprintf(fp, "%s%ld", i ? "," : "", v);
     }
     fprintf(fp, "]}\n");
